@@ -106,6 +106,9 @@ def _cargo_env(units_dir, tgt):
         "RUSTC_WRAPPER": DRIVER_BIN,
         "CARGO_TARGET_DIR": tgt,
         "CARGO_NET_OFFLINE": "true",
+        # incremental compilation would load borrowck/optimized MIR of unchanged bodies from its
+        # cache, so the driver's mir_promoted hook (pre-transform coroutine MIR) would not run
+        "CARGO_INCREMENTAL": "0",
     })
     env.pop("RUSTC_WORKSPACE_WRAPPER", None)
     env.pop("RUSTUP_TOOLCHAIN", None)
@@ -463,6 +466,9 @@ def load(want_nc=False):
         missing = [c for c in MEMBER_CRATES if c not in p.crates]
         if missing:
             raise FactsError("no MIR facts for workspace crates: %s" % missing)
+        late = [f.name for f in p.fns.values() if f.get("coroutine") and f["phase"] != "promoted"]
+        if late:
+            raise FactsError("coroutine bodies without pre-transform MIR (driver hook did not run): %s" % late[:5])
         _prog_cache[snap] = p
     return _prog_cache[snap]
 
